@@ -305,6 +305,28 @@ def run_unit_verus(unit, tier):
     for ob in res["failed"]:
         seen.setdefault(ob["id"], ob)
     res["failed"] = list(seen.values())
+    # A genuine violation is rejected whatever the solver's search order; an obligation rejected only under
+    # some seeds is a brittle proof, reported as undecided and never as a violation.
+    if res["failed"]:
+        confirmed = set(ob["id"] for ob in res["failed"])
+        for seed in (1, 2):
+            rr = run_verus(path, 30, ["--smt-option", "smt.random_seed=%d" % seed])
+            ids = set()
+            if rr.get("json") and not rr.get("timeout"):
+                for d in rr["diags"]:
+                    kind, ob = classify_diag(d, g)
+                    if kind == "verification":
+                        ids.add(obligation_id(unit["name"], ob))
+                if rr["json"].get("verification-results", {}).get("success"):
+                    ids = set()
+            else:
+                ids = confirmed
+            confirmed &= ids
+        for ob in res["failed"]:
+            if ob["id"] not in confirmed:
+                res["undecided"].append("brittle proof (rejected under the default solver seed, accepted under another): %s" % ob["id"])
+        res["failed"] = [ob for ob in res["failed"] if ob["id"] in confirmed]
+        res["seed_retries"] = 2
     # ---- vacuity guards: every function under contract must FAIL both canaries
     res["canary"] = {"start": canary_check(rs, gs, "CANARY-START"), "end": canary_check(re_, ge, "CANARY-END")}
     if rlp is not None:
@@ -417,7 +439,8 @@ def main():
     seed = int(os.environ.get("VERIF_SEED", "0") or 0)
     t0 = time.time()
     units = [u for u in load_units()["units"] if prop in u.get("serves", [])]
-    known = [k for k in load_known()["findings"] if prop in k.get("properties", [k.get("property")])]
+    # a finding is identified by its failed obligation(s); it is reported under every property whose check meets it
+    known = load_known()["findings"]
     os.makedirs(EVID, exist_ok=True)
     evid_path = os.path.join(EVID, prop + ".json")
     if os.path.exists(evid_path):
